@@ -13,59 +13,79 @@
 (* and that every query returns what the reference says for the CURRENT    *)
 (* files.  The LTS is emitted as EDGE lines (Emit # "none") and replayed   *)
 (* on the real object (Find: the paragraph inside a Copyright document).   *)
-(* Negative controls (both make TLC report SameResult violated):           *)
+(* RawSet(ps): the Files field is rewritten through the Deb822 object the  *)
+(* creator of FilesParagraph(data) kept (data['Files'] = 'text'), which    *)
+(* the RestrictedWrapper docstring allows; the wrapper shows the new text, *)
+(* and the cache -- keyed by the raw text -- notices.  In between sits the *)
+(* CONVERTED value (the `files` property: the raw text split into          *)
+(* patterns), which the current code recomputes on every read.             *)
+(* Negative controls (each makes TLC report SameResult violated):          *)
 (*   StaleCache = TRUE          compile once, never refresh                *)
 (*   KeyBeforeTranslate = TRUE  the new key is stored BEFORE globs_to_re   *)
 (*                              is called: when that raises, the key is    *)
 (*                              new and the regex old -- the first query   *)
 (*                              raises, every later one answers from the   *)
 (*                              stale regex (seeded change C16-seedC)      *)
+(*   ConvMemo = TRUE            the converted value is memoised per object *)
+(*                              (conv) and dropped by the property setter  *)
+(*                              only: after RawSet the cache recompiles -- *)
+(*                              from the old patterns -- and files them    *)
+(*                              under the new text (seeded change          *)
+(*                              C16-seedI)                                 *)
 (***************************************************************************)
 EXTENDS Glob
 
 CONSTANTS Pool,               \* set of pattern lists the Files field is set to
           QNames,             \* names queried
           StaleCache,         \* FALSE
-          KeyBeforeTranslate  \* FALSE
+          KeyBeforeTranslate, \* FALSE
+          ConvMemo            \* FALSE
 
 VARIABLES key,          \* cached Files value (<<>> = the initial '' key)
           cre,          \* cached regex (sequence of alternatives)
+          conv,         \* ConvMemo only: <<memoised converted Files value>>, <<>> = none
           res           \* "ok" | "match" | "nomatch" | "found" | "none" | "FormatError"
 
-cvars == <<doc, n, key, cre, res>>
+cvars == <<doc, n, key, cre, conv, res>>
 
 Edge(op, arg) == (Emit # "none") =>
     PrintT(<<"EDGE", ToJson([from |-> [files |-> doc[1], key |-> key], op |-> op, args |-> <<arg>>,
                              res |-> res', to |-> [files |-> doc'[1], key |-> key']])>>)
 
-\* FilesParagraph.create(files, ...): fresh object, cache = ('', re.compile('')), then files = ...
+\* FilesParagraph.create(files, ...): fresh object, cache = ('', re.compile('')), then files = ...;
+\* FilesParagraph(data): the constructor's validation reads the converted value once
 CInit == /\ doc \in {<<ps>> : ps \in Pool}
          /\ n = <<>> /\ key = <<>> /\ cre = << <<>> >> /\ res = "ok"
+         /\ conv \in (IF ConvMemo THEN {<<>>, <<doc[1]>>} ELSE {<<>>})
 
-SetFiles(ps) == /\ doc' = <<ps>> /\ res' = "ok" /\ UNCHANGED <<n, key, cre>>
+SetFiles(ps) == /\ doc' = <<ps>> /\ res' = "ok" /\ conv' = <<>> /\ UNCHANGED <<n, key, cre>>
                 /\ Edge("setfiles", ps)
+RawSet(ps)   == /\ doc' = <<ps>> /\ res' = "ok" /\ UNCHANGED <<n, key, cre, conv>>
+                /\ Edge("rawset", ps)
 
 MatchRe(re, nm) == IF RegexMatch(re, nm, Discipline) THEN "match" ELSE "nomatch"
 Ans(re, nm, yes, no) == IF RegexMatch(re, nm, Discipline) THEN yes ELSE no
 
-\* files_pattern() followed by fullmatch
+\* files_pattern() followed by fullmatch; doc[1] = the raw Files text, pats = what self.files converts it to
 Lookup(nm, yes, no) ==
-   LET refresh == IF StaleCache THEN key = <<>> ELSE key # doc[1] IN
+   LET refresh == IF StaleCache THEN key = <<>> ELSE key # doc[1]
+       pats    == IF ConvMemo /\ conv # <<>> THEN conv[1] ELSE doc[1] IN
    IF refresh
-   THEN IF RegexErr(doc[1])
-        THEN /\ res' = "FormatError"                                    \* globs_to_re raised
-             /\ IF KeyBeforeTranslate THEN key' = doc[1] /\ UNCHANGED cre
-                                      ELSE UNCHANGED <<key, cre>>
-        ELSE key' = doc[1] /\ cre' = Regex(doc[1]) /\ res' = Ans(cre', nm, yes, no)
-   ELSE UNCHANGED <<key, cre>> /\ res' = Ans(cre, nm, yes, no)
+   THEN /\ conv' = (IF ConvMemo THEN <<pats>> ELSE conv)
+        /\ IF RegexErr(pats)
+           THEN /\ res' = "FormatError"                                 \* globs_to_re raised
+                /\ IF KeyBeforeTranslate THEN key' = doc[1] /\ UNCHANGED cre
+                                         ELSE UNCHANGED <<key, cre>>
+           ELSE key' = doc[1] /\ cre' = Regex(pats) /\ res' = Ans(cre', nm, yes, no)
+   ELSE UNCHANGED <<key, cre, conv>> /\ res' = Ans(cre, nm, yes, no)
 
 Match(nm) == n' = nm /\ UNCHANGED doc /\ Lookup(nm, "match", "nomatch") /\ Edge("matches", nm)
 \* Copyright.find_files_paragraph on the document whose only Files paragraph this is
 Find(nm)  == n' = nm /\ UNCHANGED doc /\ Lookup(nm, "found", "none") /\ Edge("find", nm)
 
-CNext == (\E ps \in Pool : SetFiles(ps)) \/ (\E nm \in QNames : Match(nm) \/ Find(nm))
+CNext == (\E ps \in Pool : SetFiles(ps) \/ RawSet(ps)) \/ (\E nm \in QNames : Match(nm) \/ Find(nm))
 CSpec == CInit /\ [][CNext]_cvars
-CView == <<doc, key, cre>>          \* n and res are outputs
+CView == <<doc, key, cre, conv>>          \* n and res are outputs
 
 \* constants of MC_GlobCache.cfg (a cfg file cannot spell tuples)
 MCPool   == { << <<97>> >>, << <<97, 42>> >>, << <<98, 63>> >>, << <<98>>, <<97, 63>> >>,
